@@ -436,6 +436,68 @@ def run_compiled(lib, job, suffix):
     return out
 
 
+def run_forked(lib, jobs, todo):
+    """Run the compiled functions in a forked child (a SIGFPE / SIGSEGV of emitted code — e.g. the integer
+    division `(7) / (0)` printed for float constants — must not take the worker down).  The child streams
+    pickled results; when it dies the variant in progress is recorded as `run-crash` and a new child
+    continues after it."""
+    import pickle
+    import signal as _signal
+    import struct as _struct
+
+    results = {}
+    start = 0
+    while start < len(todo):
+        r, w = os.pipe()
+        pid = os.fork()
+        if pid == 0:
+            try:
+                os.close(r)
+                with os.fdopen(w, "wb") as f:
+                    for k in range(start, len(todo)):
+                        j, sfx = todo[k]
+                        f.write(_struct.pack("<ii", 0, k))
+                        f.flush()
+                        try:
+                            payload = ("ran", run_compiled(lib, jobs[j], sfx))
+                        except Exception as ex:  # noqa: BLE001
+                            payload = ("load-error", f"{type(ex).__name__}: {ex}"[:300])
+                        blob = pickle.dumps(payload)
+                        f.write(_struct.pack("<ii", 1, len(blob)))
+                        f.write(blob)
+                        f.flush()
+            finally:
+                os._exit(0)
+        os.close(w)
+        current, done_upto = None, start
+        with os.fdopen(r, "rb") as f:
+            while True:
+                h = f.read(8)
+                if len(h) < 8:
+                    break
+                tag, n = _struct.unpack("<ii", h)
+                if tag == 0:
+                    current = n
+                else:
+                    blob = f.read(n)
+                    if len(blob) < n:
+                        break
+                    results[todo[current]] = pickle.loads(blob)
+                    done_upto = current + 1
+                    current = None
+        _, status = os.waitpid(pid, 0)
+        if current is not None and todo[current] not in results:
+            sig = os.WTERMSIG(status) if os.WIFSIGNALED(status) else 0
+            name = _signal.Signals(sig).name if sig else f"exit {status}"
+            results[todo[current]] = ("run-crash", f"the compiled function terminated the process with {name}")
+            start = current + 1
+        elif done_upto >= len(todo):
+            break
+        else:
+            start = max(done_upto, start + 1)
+    return results
+
+
 def finish(results, cfg):
     """compile in units of at most 250 emitted functions (bounded compiler memory)"""
     jobs = list(_cpp_jobs)
@@ -455,7 +517,10 @@ def finish_unit(_cpp_jobs, cfg, tag):
             pieces.append(((job["id"], sfx), text + "\n" + wrapper(job["fname"] + sfx, job["argtys"], job["retty"])))
     so, failed = compile_unit(workdir, tag, pieces)
     lib = ctypes.CDLL(so) if so else None
-    for job in _cpp_jobs:
+    todo = [(j, sfx) for j, job in enumerate(_cpp_jobs) for sfx in job["variants"]
+            if lib is not None and (job["id"], sfx) not in failed]
+    ran = run_forked(lib, _cpp_jobs, todo) if todo else {}
+    for j, job in enumerate(_cpp_jobs):
         out = job["out"]
         res = {}
         for sfx in job["variants"]:
@@ -466,11 +531,11 @@ def finish_unit(_cpp_jobs, cfg, tag):
             if lib is None:
                 res[sfx] = ("compile-error", "unit failed")
                 continue
-            try:
-                got = run_compiled(lib, job, sfx)
-                res[sfx] = ("ran", cmp_arrays(got, job["expects"], job["retty"]))
-            except Exception as ex:  # noqa: BLE001
-                res[sfx] = ("load-error", f"{type(ex).__name__}: {ex}"[:300])
+            st_, val_ = ran.get((j, sfx), ("load-error", "not run"))
+            if st_ == "ran":
+                res[sfx] = ("ran", cmp_arrays(val_, job["expects"], job["retty"]))
+            else:
+                res[sfx] = (st_, val_)
         st, val = res[""]
         out["ninputs"] = len(job["inputs"])
         if st != "ran":
